@@ -26,7 +26,7 @@ PROP = dict(
         "evaluation identity is compared for generated SELECT-without-FROM expressions over literals, variables and side-effect-free functions",
     ],
     needs_csvq=False,
-    level_text="Proof (partial, as planned in DESIGN.md section 5): 22 Coq theorems/examples (Properties/C18.v) about an executable model of the complete hand-written scanner (Model/Lex.v: both quoting modes, prepared-statement mode, comments, numbers incl. int64/float64 limits, operators, variables/flags/environment variables/runtime information, external commands, identifiers/keywords/function classes with Unicode case folding, constants/URLs/table functions, string and identifier literals with escapes) and of option.EscapeString/UnescapeString/EscapeIdentifier/UnescapeIdentifier/Quote* (Model/Escape.v), for ALL texts, configurations and modes: the scanner never runs out of fuel = input length + 1 (C18_scan_total), every token but EOF consumes at least one code point (C18_scan_progress, C18_token_count), the line/char of every token, lexical error and EOF is a position of the text (C18_scan_positions, C18_positions_numeric, C18_stream_ok), UnescapeString inverts EscapeString and the identifier pair likewise (C18_unescape_escape_string/_identifier; false for the double quotation mark as quote: ..._any_quote_refuted), and every literal, quoted identifier and enclosed environment variable that String() prints is scanned back to exactly itself at the right position in every mode (C18_scan_quoted_string/_identifier/_envvar; the side condition on the following rune is necessary: ..._any_rest_refuted). The model is tied to the code by comparing, inside Coq, the token streams of parser.Scanner and the outputs of the option functions with the model on random code-point strings, token soups, mutated valid queries, a grammar-based corpus and the inputs of the pinned parser tests in all four mode combinations. NOT proved (LALR grammar not modelled): parser.Parse returning without panic inside a time bound with error positions inside the input, print/re-parse/print identity of every printable node and evaluation identity are checked differentially on the same inputs on every run.",
+    level_text="Proof (partial, as planned in DESIGN.md section 5): 21 Coq theorems/examples (Properties/C18.v) about an executable model of the complete hand-written scanner (Model/Lex.v: both quoting modes, prepared-statement mode, comments, numbers incl. int64/float64 limits, operators, variables/flags/environment variables/runtime information, external commands, identifiers/keywords/function classes with Unicode case folding, constants/URLs/table functions, string and identifier literals with escapes) and of option.EscapeString/UnescapeString/EscapeIdentifier/UnescapeIdentifier/Quote* (Model/Escape.v), for ALL texts, configurations and modes: the scanner never runs out of fuel = input length + 1 (C18_scan_total), every token but EOF consumes at least one code point (C18_scan_progress, C18_token_count), the line/char of every token, lexical error and EOF is a position of the text (C18_scan_positions, C18_positions_numeric, C18_stream_ok), UnescapeString inverts EscapeString and the identifier pair likewise (C18_unescape_escape_string/_identifier; false for the double quotation mark as quote: ..._any_quote_refuted), and every literal, quoted identifier and enclosed environment variable that String() prints is scanned back to exactly itself at the right position in every mode (C18_scan_quoted_string/_identifier/_envvar; the side condition on the following rune is necessary: ..._any_rest_refuted). The model is tied to the code by comparing, inside Coq, the token streams of parser.Scanner and the outputs of the option functions with the model on random code-point strings, token soups, mutated valid queries, a grammar-based corpus and the inputs of the pinned parser tests in all four mode combinations. NOT proved (LALR grammar not modelled): parser.Parse returning without panic inside a time bound with error positions inside the input, print/re-parse/print identity of every printable node and evaluation identity are checked differentially on the same inputs on every run.",
     level_note="Trusted: Coq kernel + vm_compute; Go harness; Go's rune conversion, Unicode tables and case folding (compared with the model on every run); strconv number parsing (modelled exactly). Not modelled: parser.y / goyacc tables and actions (differential runs only).",
     technique="Coq theorems for scanner/escaping; grammar round trip by differential runs (stated as partial)",
     design_ref="DESIGN.md section 5 (C18)",
